@@ -50,6 +50,8 @@ type Behav struct {
 	RespErr bool
 	// Stalls: before the n-th call (0-based count of calls made so far) wait this long.
 	Stalls map[int]time.Duration
+	// Agent is the User-Agent the runtime sends ("" = default).
+	Agent string
 	// Around, when set, returns extra ops to run before and after the answer to an invocation (healthy loop).
 	Around func(inv *Invocation) (pre, post []Op)
 	// PerInv gives the healthy runtime loop a per-invocation plan (nil = answer with RespBody).
@@ -201,6 +203,7 @@ func (e *Engine) spawn() {
 				e.addActor(ia, b)
 			}
 			a := e.w.NewActor(p, fmt.Sprintf("rt@%d", p.Gen), true)
+			a.UA = ps.b.Agent
 			e.addActor(a, ps.b)
 		} else {
 			a := e.w.NewActor(p, fmt.Sprintf("ext:%s@%d", p.ExtName, p.Gen), false)
